@@ -99,10 +99,24 @@ def _gen_sij(w, rng):
 
 
 def _files_sij(w, op, res):
+    import pandas as pd
     a = op["args"]
     out = []
     if a.get("outputsij"):
         out.append((a["outputsij"], res, "txt:6:1"))
+    if a.get("outputqlQl"):
+        full = res if isinstance(res, np.ndarray) else np.concatenate([np.asarray(x) for x in res], axis=0)
+        c = a.get("c", 0.7)
+
+        def derived(path):
+            # id, number of bonds with s_ij > c, number of neighbours - all derivable from what was returned
+            got = pd.read_csv(path).to_numpy(dtype=float)
+            want = np.column_stack((full[:, 0], (full[:, 2:] > c).sum(axis=1), full[:, 1]))
+            if got.shape != want.shape:
+                return f"shape {got.shape}, expected {want.shape}"
+            bad = np.argwhere(got != want)
+            return None if not len(bad) else f"row {bad[0][0]} column {bad[0][1]}: file {got[tuple(bad[0])]} vs {want[tuple(bad[0])]} from the returned s_ij"
+        out.append((a["outputqlQl"], derived, "csv-derived"))
     return out
 
 
